@@ -97,7 +97,7 @@ func rescaleExported(v reflect.Value, k int, depth int) {
 	}
 }
 
-var variantFactor = []float64{1, 1.5, 0.5}
+var variantFactor = []float64{1, 1.5, 0.5, 0} // 0: degenerate but legal (an index that starts at zero, a zero percentage)
 
 // makeIndV is makeInd plus the variant of the non-period parameters.
 func makeIndV(e *IndEntity, cfg []int, scale, variant int) *IndInstance {
